@@ -400,4 +400,653 @@ theorem attrs_three_holes (a0 a1 b1 c1 h0 h1 h2 n0 n1 n2 : Text) (E0 : List (Tex
   · unfold tagName
     rw [hre, takeWhile_append_stop a0 _ hsp]
 
+
+/-! ### documents made of literal pieces and holes -/
+
+def fl (t : Text) : Text := t.filter notCrLf
+
+/-- literal of the `i`-th top-level segment -/
+def litAt (tmpl : List Seg) (i : Nat) : Text :=
+  match tmpl[i]? with
+  | some (.atom (.lit t)) => t
+  | _ => []
+
+/-- literal `j` of the loop / if body at top-level position `i` -/
+def bodyLit (tmpl : List Seg) (i j : Nat) : Text :=
+  match tmpl[i]? with
+  | some (.forKids body) | some (.forCustom body) | some (.ifChecksum body _) =>
+    (match body[j]? with
+     | some (.lit t) => t
+     | _ => [])
+  | _ => []
+
+def customBody (tmpl : List Seg) (i : Nat) : List Atom :=
+  match tmpl[i]? with
+  | some (.forCustom body) => body
+  | _ => []
+
+theorem fl_append (a b : Text) : fl (a ++ b) = fl a ++ fl b := by simp [fl]
+
+theorem fl_b64 (b : Bytes) : fl (b64 b) = b64 b := by
+  apply List.filter_eq_self.mpr
+  intro c hc
+  have := b64_chars b c hc
+  simp [notCrLf]; omega
+
+theorem tokenize_cleanup (t : Text) (toks : List Tok)
+    (h : pipe (none, .idle) (fl t) = (toks, (some [], .idle))) : tokenize (cleanup t) = toks := by
+  simp only [pipe] at h
+  have h1 : (tkRun .idle (sqRun none (fl t)).1).1 = toks := by rw [← (Prod.mk.inj h).1]
+  have h2 : (sqRun none (fl t)).2 = some [] := (Prod.mk.inj (Prod.mk.inj h).2).1
+  have h3 : (tkRun .idle (sqRun none (fl t)).1).2 = .idle := (Prod.mk.inj (Prod.mk.inj h).2).2
+  simp [tokenize, cleanup_def, squeeze, fl, h2] at *
+  simp [h1, h3]
+
+/-- a loop of tag pieces between tags -/
+theorem pipe_loop {α} (body : α → Text) (toks : α → List Tok) (wc : Text)
+    (hiter : ∀ (x : α) (w : Text), w.all isWs = true → pipe (some w, .idle) (body x) = (toks x, (some wc, .idle)))
+    (hwc : wc.all isWs = true) :
+    ∀ (l : List α) (w : Text), w.all isWs = true →
+      ∃ w', w'.all isWs = true ∧ pipe (some w, .idle) (l.flatMap body) = (l.flatMap toks, (some w', .idle)) := by
+  intro l
+  induction l with
+  | nil => intro w hw; exact ⟨w, hw, by simp [pipe_nil]⟩
+  | cons x xs ih =>
+    intro w hw
+    obtain ⟨w', hw', h'⟩ := ih wc hwc
+    refine ⟨w', hw', ?_⟩
+    simp only [List.flatMap_cons]
+    rw [pipe_append, hiter x w hw]
+    simp [h']
+
+/-- the licence URL after `format`: no CR / LF (they are stripped by the clean-up) and not
+made of whitespace only (`>\s+<` would delete it) -/
+def LaOk (la : Text) : Prop := (∀ c ∈ la, c ≠ 10 ∧ c ≠ 13) ∧ (la = [] ∨ la.all isWs = false)
+
+theorem textHole_escape (la : Text) (h : LaOk la) : TextHole (escape la) := by
+  rcases h.2 with rfl | hb
+  · left; rfl
+  · right
+    refine ⟨fun c hc => ?_, by rw [escape_all_ws]; exact hb⟩
+    have := escape_plain la c hc
+    exact ⟨this.2.1, this.1⟩
+
+theorem textHole_b64 (b : Bytes) : TextHole (b64 b) := by
+  by_cases h : b64 b = []
+  · left; exact h
+  · right
+    refine ⟨fun c hc => ?_, ?_⟩
+    · have := b64_chars b c hc; exact ⟨this.2.2.1, this.2.1⟩
+    · cases hb : b64 b with
+      | nil => exact absurd hb h
+      | cons c cs =>
+        have := (b64_chars b c (by rw [hb]; simp)).1
+        simp [this]
+
+/-- the common tail `… <LA_URL>` la `</LA_URL> … </WRMHEADER>` -/
+theorem pipe_tail (w L1 la L2t L3 : Text) (T1 T2a T2b : List Tok) (S2 : PSt)
+    (hl : leadsLt L1 = true) (h1 : pipe (some [], .idle) L1 = (T1, (some [], .idle)))
+    (h2 : pipe (none, .inTag []) L2t = (T2a, S2)) (h3 : pipe S2 L3 = (T2b, (some [], .idle)))
+    (hla : TextHole la) :
+    pipe (some w, .idle) (L1 ++ (la ++ 60 :: L2t) ++ L3)
+      = (T1 ++ optText la ++ T2a ++ T2b, (some [], .idle)) := by
+  rw [pipe_append, pipe_append, pipe_tag_open w L1 hl, h1]
+  simp only
+  rw [pipe_text_hole la L2t hla, h2]
+  simp only
+  rw [h3]
+  simp
+
+
+/-- a tag `A h1 B h2 C` with two attribute holes, entered after held-back whitespace -/
+theorem pipe_tag2 (w A B C h1 h2 bufA pre post : Text)
+    (hl : leadsLt A = true) (hA : pipe (some [], .idle) A = ([], (none, .inTag bufA)))
+    (hB1 : (sqRun none B).2 = none) (hB2 : ∀ c ∈ (sqRun none B).1, c ≠ 62)
+    (hC : (sqRun none C).1 = pre ++ 62 :: post) (hpre : ∀ c ∈ pre, c ≠ 62)
+    (hh1 : ∀ c ∈ h1, c ≠ 62) (hh2 : ∀ c ∈ h2, c ≠ 62) :
+    pipe (some w, .idle) (A ++ h1 ++ B ++ h2 ++ C)
+      = (.tag (bufA ++ h1 ++ (sqRun none B).1 ++ h2 ++ pre) :: (tkRun .idle post).1,
+         ((sqRun none C).2, (tkRun .idle post).2)) := by
+  rw [pipe_append, pipe_append, pipe_append, pipe_append, pipe_tag_open w A hl, hA]
+  simp only
+  rw [pipe_attr_hole bufA h1 hh1]
+  simp only
+  rw [pipe_tag_lit _ B hB1 hB2]
+  simp only
+  rw [pipe_attr_hole _ h2 hh2]
+  simp only
+  rw [pipe_tag_close _ C pre post hC hpre]
+  simp [List.append_assoc]
+
+/-- three attribute holes `A0 h0 A1 h1 B h2 C` -/
+theorem pipe_tag3 (w A0 A1 B C h0 h1 h2 bufA pre post : Text)
+    (hl : leadsLt A0 = true) (hA : pipe (some [], .idle) A0 = ([], (none, .inTag bufA)))
+    (hA1 : (sqRun none A1).2 = none) (hA2 : ∀ c ∈ (sqRun none A1).1, c ≠ 62)
+    (hB1 : (sqRun none B).2 = none) (hB2 : ∀ c ∈ (sqRun none B).1, c ≠ 62)
+    (hC : (sqRun none C).1 = pre ++ 62 :: post) (hpre : ∀ c ∈ pre, c ≠ 62)
+    (hh0 : ∀ c ∈ h0, c ≠ 62) (hh1 : ∀ c ∈ h1, c ≠ 62) (hh2 : ∀ c ∈ h2, c ≠ 62) :
+    pipe (some w, .idle) (A0 ++ h0 ++ A1 ++ h1 ++ B ++ h2 ++ C)
+      = (.tag (bufA ++ h0 ++ (sqRun none A1).1 ++ h1 ++ (sqRun none B).1 ++ h2 ++ pre) :: (tkRun .idle post).1,
+         ((sqRun none C).2, (tkRun .idle post).2)) := by
+  rw [pipe_append, pipe_append, pipe_append, pipe_append, pipe_append, pipe_append,
+    pipe_tag_open w A0 hl, hA]
+  simp only
+  rw [pipe_attr_hole bufA h0 hh0]
+  simp only
+  rw [pipe_tag_lit _ A1 hA1 hA2]
+  simp only
+  rw [pipe_attr_hole _ h1 hh1]
+  simp only
+  rw [pipe_tag_lit _ B hB1 hB2]
+  simp only
+  rw [pipe_attr_hole _ h2 hh2]
+  simp only
+  rw [pipe_tag_close _ C pre post hC hpre]
+  simp [List.append_assoc]
+
+/-! ### reading the token list -/
+
+theorem elemText_skip (n : Text) (X Y : List Tok) (hX : ∀ t ∈ X, t ≠ .tag n) :
+    elemText n (X ++ Y) = elemText n Y := by
+  induction X with
+  | nil => rfl
+  | cons x xs ih =>
+    have hx := hX x (by simp)
+    have ih' := ih (fun t ht => hX t (by simp [ht]))
+    cases x with
+    | text t => simp [elemText, ih']
+    | tag b =>
+      have : b ≠ n := fun h => hx (by rw [h])
+      simp [elemText, this, ih']
+
+/-- the element `<n>`hole`</…>` after tokens that hold no `<n>` tag -/
+theorem elemText_found (n h m : Text) (X Y : List Tok) (hX : ∀ t ∈ X, t ≠ .tag n) :
+    elemText n (X ++ .tag n :: (optText h ++ .tag m :: Y)) = some h := by
+  rw [elemText_skip n X _ hX]
+  unfold optText
+  by_cases hh : h = []
+  · simp [elemText, hh]
+  · simp [elemText, hh]
+
+theorem allSome_map_some {α β} (f : α → β) (l : List α) : allSome (l.map fun x => some (f x)) = some (l.map f) := by
+  induction l with
+  | nil => rfl
+  | cons x xs ih => simp [allSome, ih]
+
+theorem filterMap_optText (h : Text) : (optText h).filterMap kidOfTag = [] := by
+  unfold optText; split <;> simp [kidOfTag]
+
+
+/-! ### a `<KID ALGID=… CHECKSUM="h1" VALUE="h2"></KID>` piece -/
+
+def aesctrText : Text := [65, 69, 83, 67, 84, 82]
+
+structure Tag2 where
+  A : Text
+  B : Text
+  C : Text
+
+namespace Tag2
+variable (p : Tag2)
+def bufA : Text := match (pipe (some [], .idle) p.A).2.2 with | .inTag b => b | _ => []
+def ob : Text := (sqRun none p.B).1
+def oc : Text := (sqRun none p.C).1
+def pre : Text := p.oc.takeWhile (· != 62)
+def post : Text := (p.oc.dropWhile (· != 62)).tail
+def wc : Text := ((sqRun none p.C).2).getD []
+def tc : List Tok := (tkRun .idle p.post).1
+def e0 : List (Text × Text) := (atRun .skip (p.bufA.dropWhile (· != 32))).1
+
+/-- everything the soundness lemma needs to know about the three literals – closed, decidable -/
+def check : Bool :=
+  leadsLt p.A && decide (pipe (some [], .idle) p.A = ([], (none, .inTag p.bufA)))
+  && decide ((sqRun none p.B).2 = none) && p.ob.all (· != 62)
+  && decide (p.oc = p.pre ++ 62 :: p.post) && p.pre.all (· != 62)
+  && decide ((sqRun none p.C).2 = some p.wc) && p.wc.all isWs && decide ((tkRun .idle p.post).2 = .idle)
+  && p.bufA.any (fun x => !(x != 32))
+  && decide (atRun .skip (p.bufA.dropWhile (· != 32)) = (p.e0, .val checksumName []))
+  && decide (p.ob = 34 :: p.ob.tail) && decide (atRun .skip p.ob.tail = ([], .val valueName []))
+  && decide (p.pre = 34 :: p.pre.tail) && decide ((atRun .skip p.pre.tail).1 = [])
+  && decide (tagName p.bufA = kidName) && decide (attrLookup valueName p.e0 = none)
+  && decide (attrLookup checksumName p.e0 = none)
+  && decide ((attrLookup algidName p.e0).map unescape = some aesctrText)
+  && decide (p.tc.filterMap kidOfTag = []) && p.tc.all (fun t => decide (t ≠ .tag laUrlName))
+
+def body (h1 h2 : Text) : Text := p.bufA ++ h1 ++ p.ob ++ h2 ++ p.pre
+
+theorem sound (h : p.check = true) (w : Text) (cs kid : Bytes) :
+    pipe (some w, .idle) (p.A ++ b64 cs ++ p.B ++ b64 kid ++ p.C)
+      = (.tag (p.body (b64 cs) (b64 kid)) :: p.tc, (some p.wc, .idle)) ∧
+    kidOfTag (.tag (p.body (b64 cs) (b64 kid))) = some (some ⟨kid, some cs, some aesctrText⟩) ∧
+    p.wc.all isWs = true ∧ p.tc.filterMap kidOfTag = [] ∧ (∀ t ∈ p.tc, t ≠ .tag laUrlName) := by
+  simp only [check, Bool.and_eq_true, decide_eq_true_eq, List.all_eq_true, List.any_eq_true] at h
+  obtain ⟨⟨⟨⟨⟨⟨⟨⟨⟨⟨⟨⟨⟨⟨⟨⟨⟨⟨⟨⟨hl, hA⟩, hB1⟩, hB2⟩, hC⟩, hpre⟩, hC2⟩, hwc⟩, htk⟩, hsp⟩, ha0⟩, hob⟩, hb1⟩, hpr⟩,
+    hc1⟩, htn⟩, hlv⟩, hlc⟩, hla⟩, htc⟩, htl⟩ := h
+  have h62 : ∀ (b : Bytes) c, c ∈ b64 b → c ≠ 62 := fun b c hc => (b64_chars b c hc).2.2.1
+  have h34 : ∀ (b : Bytes) c, c ∈ b64 b → c ≠ 34 := fun b c hc => (b64_chars b c hc).2.2.2.1
+  have hpipe := pipe_tag2 w p.A p.B p.C (b64 cs) (b64 kid) p.bufA p.pre p.post hl hA hB1
+    (fun c hc => by simpa using hB2 c hc) hC (fun c hc => by simpa using hpre c hc) (h62 cs) (h62 kid)
+  refine ⟨?_, ?_, by simpa [List.all_eq_true] using hwc, htc, fun t ht => by simpa using htl t ht⟩
+  · rw [hpipe, hC2, htk]; rfl
+  · obtain ⟨x, hx, hx32⟩ := hsp
+    have hat := attrs_two_holes p.bufA p.ob.tail p.pre.tail (b64 cs) (b64 kid) checksumName valueName p.e0
+      ⟨x, hx, by simpa using hx32⟩ ha0 hb1 hc1 (h34 cs) (h34 kid)
+    rw [← hob, ← hpr] at hat
+    have hbody : p.body (b64 cs) (b64 kid) = p.bufA ++ b64 cs ++ p.ob ++ b64 kid ++ p.pre := rfl
+    simp only [kidOfTag, hbody, hat.1, hat.2, htn, ne_eq, not_true_eq_false, if_false]
+    have l1 : attrLookup valueName (p.e0 ++ [(checksumName, b64 cs), (valueName, b64 kid)]) = some (b64 kid) := by
+      unfold attrLookup at hlv ⊢
+      rw [List.find?_append]
+      cases hf : p.e0.find? (·.1 = valueName) with
+      | some y => simp [hf] at hlv
+      | none => simp [checksumName, valueName]
+    have l2 : attrLookup checksumName (p.e0 ++ [(checksumName, b64 cs), (valueName, b64 kid)]) = some (b64 cs) := by
+      unfold attrLookup at hlc ⊢
+      rw [List.find?_append]
+      cases hf : p.e0.find? (·.1 = checksumName) with
+      | some y => simp [hf] at hlc
+      | none => simp
+    have l3 : (attrLookup algidName (p.e0 ++ [(checksumName, b64 cs), (valueName, b64 kid)])).map unescape
+        = some aesctrText := by
+      unfold attrLookup at hla ⊢
+      rw [List.find?_append]
+      cases hf : p.e0.find? (·.1 = algidName) with
+      | some y => simpa [hf] using hla
+      | none => simp [hf] at hla
+    rw [l1, l2, l3]
+    simp [b64dec_b64]
+end Tag2
+
+
+
+/-! ### a `<KID ALGID="h0" CHECKSUM="h1" VALUE="h2"></KID>` piece (header version 4.3) -/
+
+structure Tag3 where
+  A0 : Text
+  A1 : Text
+  B : Text
+  C : Text
+
+namespace Tag3
+variable (p : Tag3)
+def bufA : Text := match (pipe (some [], .idle) p.A0).2.2 with | .inTag b => b | _ => []
+def oa : Text := (sqRun none p.A1).1
+def ob : Text := (sqRun none p.B).1
+def oc : Text := (sqRun none p.C).1
+def pre : Text := p.oc.takeWhile (· != 62)
+def post : Text := (p.oc.dropWhile (· != 62)).tail
+def wc : Text := ((sqRun none p.C).2).getD []
+def tc : List Tok := (tkRun .idle p.post).1
+def e0 : List (Text × Text) := (atRun .skip (p.bufA.dropWhile (· != 32))).1
+
+def check : Bool :=
+  leadsLt p.A0 && decide (pipe (some [], .idle) p.A0 = ([], (none, .inTag p.bufA)))
+  && decide ((sqRun none p.A1).2 = none) && p.oa.all (· != 62)
+  && decide ((sqRun none p.B).2 = none) && p.ob.all (· != 62)
+  && decide (p.oc = p.pre ++ 62 :: p.post) && p.pre.all (· != 62)
+  && decide ((sqRun none p.C).2 = some p.wc) && p.wc.all isWs && decide ((tkRun .idle p.post).2 = .idle)
+  && p.bufA.any (fun x => !(x != 32))
+  && decide (atRun .skip (p.bufA.dropWhile (· != 32)) = (p.e0, .val algidName []))
+  && decide (p.oa = 34 :: p.oa.tail) && decide (atRun .skip p.oa.tail = ([], .val checksumName []))
+  && decide (p.ob = 34 :: p.ob.tail) && decide (atRun .skip p.ob.tail = ([], .val valueName []))
+  && decide (p.pre = 34 :: p.pre.tail) && decide ((atRun .skip p.pre.tail).1 = [])
+  && decide (tagName p.bufA = kidName) && decide (attrLookup valueName p.e0 = none)
+  && decide (attrLookup checksumName p.e0 = none) && decide (attrLookup algidName p.e0 = none)
+  && decide (p.tc.filterMap kidOfTag = []) && p.tc.all (fun t => decide (t ≠ .tag laUrlName))
+
+def body (h0 h1 h2 : Text) : Text := p.bufA ++ h0 ++ p.oa ++ h1 ++ p.ob ++ h2 ++ p.pre
+
+theorem sound (h : p.check = true) (w alg : Text) (cs kid : Bytes) :
+    pipe (some w, .idle) (p.A0 ++ escape alg ++ p.A1 ++ b64 cs ++ p.B ++ b64 kid ++ p.C)
+      = (.tag (p.body (escape alg) (b64 cs) (b64 kid)) :: p.tc, (some p.wc, .idle)) ∧
+    kidOfTag (.tag (p.body (escape alg) (b64 cs) (b64 kid))) = some (some ⟨kid, some cs, some alg⟩) ∧
+    p.wc.all isWs = true ∧ p.tc.filterMap kidOfTag = [] ∧ (∀ t ∈ p.tc, t ≠ .tag laUrlName) := by
+  simp only [check, Bool.and_eq_true, decide_eq_true_eq, List.all_eq_true, List.any_eq_true] at h
+  obtain ⟨⟨⟨⟨⟨⟨⟨⟨⟨⟨⟨⟨⟨⟨⟨⟨⟨⟨⟨⟨⟨⟨⟨⟨hl, hA⟩, hA1⟩, hA2⟩, hB1⟩, hB2⟩, hC⟩, hpre⟩, hC2⟩, hwc⟩, htk⟩, hsp⟩, ha0⟩,
+    hoa⟩, ha1⟩, hob⟩, hb1⟩, hpr⟩, hc1⟩, htn⟩, hlv⟩, hlc⟩, hla⟩, htc⟩, htl⟩ := h
+  have h62 : ∀ (b : Bytes) c, c ∈ b64 b → c ≠ 62 := fun b c hc => (b64_chars b c hc).2.2.1
+  have h34 : ∀ (b : Bytes) c, c ∈ b64 b → c ≠ 34 := fun b c hc => (b64_chars b c hc).2.2.2.1
+  have e62 : ∀ c ∈ escape alg, c ≠ 62 := fun c hc => (escape_plain alg c hc).2.1
+  have e34 : ∀ c ∈ escape alg, c ≠ 34 := fun c hc => (escape_plain alg c hc).2.2.1
+  have hpipe := pipe_tag3 w p.A0 p.A1 p.B p.C (escape alg) (b64 cs) (b64 kid) p.bufA p.pre p.post hl hA hA1
+    (fun c hc => by simpa using hA2 c hc) hB1 (fun c hc => by simpa using hB2 c hc) hC
+    (fun c hc => by simpa using hpre c hc) e62 (h62 cs) (h62 kid)
+  refine ⟨?_, ?_, by simpa [List.all_eq_true] using hwc, htc, fun t ht => by simpa using htl t ht⟩
+  · rw [hpipe, hC2, htk]; rfl
+  · obtain ⟨x, hx, hx32⟩ := hsp
+    have hat := attrs_three_holes p.bufA p.oa.tail p.ob.tail p.pre.tail (escape alg) (b64 cs) (b64 kid)
+      algidName checksumName valueName p.e0 ⟨x, hx, by simpa using hx32⟩ ha0 ha1 hb1 hc1 e34 (h34 cs) (h34 kid)
+    rw [← hoa, ← hob, ← hpr] at hat
+    have hbody : p.body (escape alg) (b64 cs) (b64 kid)
+        = p.bufA ++ escape alg ++ p.oa ++ b64 cs ++ p.ob ++ b64 kid ++ p.pre := rfl
+    simp only [kidOfTag, hbody, hat.1, hat.2, htn, ne_eq, not_true_eq_false, if_false]
+    have look : ∀ (n : Text), attrLookup n p.e0 = none →
+        attrLookup n (p.e0 ++ [(algidName, escape alg), (checksumName, b64 cs), (valueName, b64 kid)])
+          = attrLookup n [(algidName, escape alg), (checksumName, b64 cs), (valueName, b64 kid)] := by
+      intro n hn
+      unfold attrLookup at hn ⊢
+      rw [List.find?_append]
+      cases hf : p.e0.find? (·.1 = n) with
+      | some y => simp [hf] at hn
+      | none => simp
+    rw [look _ hlv, look _ hlc, look _ hla]
+    simp [attrLookup, List.find?, algidName, checksumName, valueName, b64dec_b64, unescape_escape]
+end Tag3
+
+/-! ### the frame around the key ids: head, `<LA_URL>` element, tail -/
+
+structure Frame where
+  L0 : Text      -- up to the first key-id piece
+  L1 : Text      -- from the last key-id piece up to and including `<LA_URL>`
+  L2 : Text      -- `</LA_URL>` … up to the custom attributes
+  L3 : Text      -- after the custom attributes
+
+namespace Frame
+variable (f : Frame)
+def t0 : List Tok := (pipe (none, .idle) f.L0).1
+def w0 : Text := ((pipe (none, .idle) f.L0).2.1).getD []
+def t1 : List Tok := (pipe (some [], .idle) f.L1).1
+def s2 : PSt := (pipe (none, .inTag []) f.L2.tail).2
+def t2 : List Tok := (pipe (none, .inTag []) f.L2.tail).1 ++ (pipe f.s2 f.L3).1
+
+def check (ver : Text) : Bool :=
+  decide (pipe (none, .idle) f.L0 = (f.t0, (some f.w0, .idle))) && f.w0.all isWs
+  && leadsLt f.L1 && decide (pipe (some [], .idle) f.L1 = (f.t1, (some [], .idle)))
+  && decide (f.L2 = 60 :: f.L2.tail) && decide ((pipe f.s2 f.L3).2 = (some [], .idle))
+  && decide (f.t0.findSome? versionOf = some ver)
+  && decide (f.t0.filterMap kidOfTag = []) && decide (f.t1.filterMap kidOfTag = [])
+  && decide (f.t2.filterMap kidOfTag = [])
+  && decide (f.t1 = f.t1.dropLast ++ [.tag laUrlName])
+  && (f.t0 ++ f.t1.dropLast).all (fun t => decide (t ≠ .tag laUrlName))
+  && (match f.t2 with | .tag _ :: _ => true | _ => false)
+
+/-- tokens of the whole document, for any key-id pieces that go from "between tags" to
+"between tags" -/
+theorem tokens (ver : Text) (h : f.check ver = true) {α} (items : List α) (body : α → Text)
+    (toks : α → List Tok) (wc la : Text)
+    (hiter : ∀ (x : α) (w : Text), pipe (some w, .idle) (body x) = (toks x, (some wc, .idle)))
+    (hla : TextHole la) :
+    pipe (none, .idle) (f.L0 ++ items.flatMap body ++ f.L1 ++ (la ++ f.L2) ++ f.L3)
+      = (f.t0 ++ items.flatMap toks ++ f.t1 ++ optText la ++ f.t2, (some [], .idle)) := by
+  simp only [check, Bool.and_eq_true, decide_eq_true_eq] at h
+  obtain ⟨⟨⟨⟨⟨⟨⟨⟨⟨⟨⟨⟨h0, _⟩, hl1⟩, h1⟩, h2⟩, h3⟩, _⟩, _⟩, _⟩, _⟩, _⟩, _⟩, _⟩ := h
+  have hloop : ∀ (l : List α) (w : Text),
+      ∃ w', pipe (some w, .idle) (l.flatMap body) = (l.flatMap toks, (some w', .idle)) := by
+    intro l
+    induction l with
+    | nil => intro w; exact ⟨w, by simp [pipe_nil]⟩
+    | cons x xs ih =>
+      intro w
+      obtain ⟨w', h'⟩ := ih wc
+      refine ⟨w', ?_⟩
+      simp only [List.flatMap_cons]
+      rw [pipe_append, hiter x w]
+      simp [h']
+  obtain ⟨w', hw'⟩ := hloop items f.w0
+  have htail := pipe_tail w' f.L1 la f.L2.tail f.L3 f.t1 (pipe (none, .inTag []) f.L2.tail).1
+    (pipe f.s2 f.L3).1 f.s2 hl1 h1 rfl (by rw [← h3]) hla
+  have hre : f.L0 ++ items.flatMap body ++ f.L1 ++ (la ++ f.L2) ++ f.L3
+      = f.L0 ++ (items.flatMap body ++ (f.L1 ++ (la ++ 60 :: f.L2.tail) ++ f.L3)) := by
+    rw [← h2]; simp [List.append_assoc]
+  rw [hre, pipe_append, h0]
+  simp only
+  rw [pipe_append, hw']
+  simp only
+  rw [htail]
+  simp [t2, List.append_assoc]
+
+
+theorem filterMap_flatMap' {α β γ} (f : α → List β) (g : β → Option γ) (l : List α) :
+    (l.flatMap f).filterMap g = l.flatMap fun x => (f x).filterMap g := by
+  induction l with
+  | nil => rfl
+  | cons x xs ih => simp [List.flatMap_cons, List.filterMap_append, ih]
+
+theorem flatMap_single {α β} (g : α → β) (l : List α) : (l.flatMap fun x => [g x]) = l.map g := by
+  induction l with
+  | nil => rfl
+  | cons x xs ih => simp [List.flatMap_cons, ih]
+
+/-- **reading back a framed document**: version, one `KidInfo` per key-id piece, licence URL -/
+theorem parse (ver : Text) (h : f.check ver = true) {α} (items : List α) (body : α → Text)
+    (toks : α → List Tok) (info : α → KidInfo) (wc la : Text)
+    (hiter : ∀ (x : α) (w : Text), pipe (some w, .idle) (body x) = (toks x, (some wc, .idle)))
+    (htoks : ∀ x, ∃ b tc, toks x = .tag b :: tc ∧ kidOfTag (.tag b) = some (some (info x)) ∧
+      tc.filterMap kidOfTag = [] ∧ ∀ t ∈ tc, t ≠ .tag laUrlName)
+    (hne : items ≠ []) (hla : TextHole la) (raw : Text)
+    (hraw : fl raw = f.L0 ++ items.flatMap body ++ f.L1 ++ (la ++ f.L2) ++ f.L3) :
+    parseWrmHeader (cleanup raw) = some ⟨some ver, items.map info, some (unescape la)⟩ := by
+  have htk := f.tokens ver h items body toks wc la hiter hla
+  rw [← hraw] at htk
+  have htokens := tokenize_cleanup raw _ htk
+  simp only [check, Bool.and_eq_true, decide_eq_true_eq, List.all_eq_true] at h
+  obtain ⟨⟨⟨⟨⟨⟨⟨⟨⟨⟨⟨⟨_, _⟩, _⟩, _⟩, _⟩, _⟩, hver⟩, hk0⟩, hk1⟩, hk2⟩, hlast⟩, hnola⟩, hhead⟩ := h
+  have hkla : kidOfTag (.tag laUrlName) = none := by decide
+  -- per item facts
+  have hitem : ∀ x, (toks x).filterMap kidOfTag = [some (info x)] := by
+    intro x
+    obtain ⟨b, tc, hx, hk, htc, _⟩ := htoks x
+    simp [hx, List.filterMap_cons, hk, htc]
+  have hitemla : ∀ x, ∀ t ∈ toks x, t ≠ .tag laUrlName := by
+    intro x t ht
+    obtain ⟨b, tc, hx, hk, _, hno⟩ := htoks x
+    rw [hx] at ht
+    rcases List.mem_cons.mp ht with rfl | ht
+    · intro heq; rw [heq, hkla] at hk; simp at hk
+    · exact hno t ht
+  unfold parseWrmHeader
+  simp only [htokens]
+  -- version
+  have hv : (f.t0 ++ items.flatMap toks ++ f.t1 ++ optText la ++ f.t2).findSome? versionOf = some ver := by
+    simp only [List.append_assoc, List.findSome?_append, hver, Option.some_or]
+  -- key ids
+  have hkids : (f.t0 ++ items.flatMap toks ++ f.t1 ++ optText la ++ f.t2).filterMap kidOfTag
+      = items.map (fun x => some (info x)) := by
+    simp only [List.filterMap_append, hk0, hk1, hk2, filterMap_optText, filterMap_flatMap', hitem,
+      List.nil_append, List.append_nil]
+    exact flatMap_single _ items
+  -- licence URL
+  have hla' : elemText laUrlName (f.t0 ++ items.flatMap toks ++ f.t1 ++ optText la ++ f.t2) = some la := by
+    obtain ⟨m, rest, hm⟩ : ∃ m rest, f.t2 = .tag m :: rest := by
+      cases ht2 : f.t2 with
+      | nil => simp [ht2] at hhead
+      | cons t ts =>
+        cases t with
+        | tag m => exact ⟨m, ts, rfl⟩
+        | text _ => simp [ht2] at hhead
+    have hre : f.t0 ++ items.flatMap toks ++ f.t1 ++ optText la ++ f.t2
+        = (f.t0 ++ items.flatMap toks ++ f.t1.dropLast) ++ .tag laUrlName :: (optText la ++ .tag m :: rest) := by
+      rw [hm]; conv => lhs; rw [hlast]
+      simp [List.append_assoc]
+    rw [hre]
+    apply elemText_found
+    intro t ht
+    rcases List.mem_append.mp ht with ht | ht
+    · rcases List.mem_append.mp ht with ht | ht
+      · have := hnola t (List.mem_append_left _ ht); simpa using this
+      · obtain ⟨x, _, hx⟩ := List.mem_flatMap.mp ht
+        exact hitemla x t hx
+    · have := hnola t (List.mem_append_right _ ht); simpa using this
+  rw [hv, hkids, hla']
+  have hemp : (items.map fun x => some (info x)).isEmpty = false := by
+    cases items with
+    | nil => exact absurd rfl hne
+    | cons x xs => rfl
+  simp only [hemp, Bool.false_eq_true, if_false, allSome_map_some]
+  rfl
+
+end Frame
+
+
+/-- an element found strictly inside a prefix is found in the whole list -/
+theorem elemText_prefix (n : Text) (X Y : List Tok) (v : Text) (hv : elemText n X = some v)
+    (hl : X.getLast? ≠ some (.tag n)) : elemText n (X ++ Y) = some v := by
+  induction X with
+  | nil => simp [elemText] at hv
+  | cons x xs ih =>
+    cases x with
+    | text t =>
+      simp only [elemText, List.cons_append] at hv ⊢
+      apply ih hv
+      intro h; apply hl
+      cases xs with
+      | nil => simp at h
+      | cons y ys => simpa [List.getLast?_cons_cons] using h
+    | tag b =>
+      by_cases hb : b = n
+      · subst hb
+        cases xs with
+        | nil => simp at hl
+        | cons y ys =>
+          cases y <;> simp_all [elemText]
+      · simp only [elemText, hb, if_false, List.cons_append] at hv ⊢
+        apply ih hv
+        intro h; apply hl
+        cases xs with
+        | nil => simp at h
+        | cons y ys => simpa [List.getLast?_cons_cons] using h
+
+/-! ### header version 4.0: `<KID>`, `<CHECKSUM>`, `<LA_URL>` elements -/
+
+structure Elems where
+  L0 : Text      -- up to and including `<KID>`
+  X1 : Text      -- `</KID>` … `<CHECKSUM>`
+  X2 : Text      -- `</CHECKSUM>` … `<LA_URL>`
+  L2 : Text      -- `</LA_URL>` …
+  L3 : Text      -- after the custom attributes
+
+namespace Elems
+variable (e : Elems)
+def t0 : List Tok := (pipe (none, .idle) e.L0).1
+def tx1 : List Tok := (pipe (none, .inTag []) e.X1.tail).1
+def tx2 : List Tok := (pipe (none, .inTag []) e.X2.tail).1
+def s2 : PSt := (pipe (none, .inTag []) e.L2.tail).2
+def t2 : List Tok := (pipe (none, .inTag []) e.L2.tail).1 ++ (pipe e.s2 e.L3).1
+
+def headIsTag : List Tok → Bool
+  | .tag _ :: _ => true
+  | _ => false
+
+def check (ver : Text) : Bool :=
+  decide (pipe (none, .idle) e.L0 = (e.t0, (some [], .idle)))
+  && decide (e.X1 = 60 :: e.X1.tail) && decide (pipe (none, .inTag []) e.X1.tail = (e.tx1, (some [], .idle)))
+  && decide (e.X2 = 60 :: e.X2.tail) && decide (pipe (none, .inTag []) e.X2.tail = (e.tx2, (some [], .idle)))
+  && decide (e.L2 = 60 :: e.L2.tail) && decide ((pipe e.s2 e.L3).2 = (some [], .idle))
+  && decide (e.t0.findSome? versionOf = some ver)
+  && decide (e.t0.filterMap kidOfTag = []) && decide (e.tx1.filterMap kidOfTag = [])
+  && decide (e.tx2.filterMap kidOfTag = []) && decide (e.t2.filterMap kidOfTag = [])
+  && decide (e.t0 = e.t0.dropLast ++ [.tag kidName]) && e.t0.dropLast.all (fun t => decide (t ≠ .tag kidName))
+  && headIsTag e.tx1
+  && decide (e.tx1 = e.tx1.dropLast ++ [.tag checksumName])
+  && (e.t0 ++ e.tx1.dropLast).all (fun t => decide (t ≠ .tag checksumName)) && headIsTag e.tx2
+  && decide (e.tx2 = e.tx2.dropLast ++ [.tag laUrlName])
+  && (e.t0 ++ e.tx1 ++ e.tx2.dropLast).all (fun t => decide (t ≠ .tag laUrlName)) && headIsTag e.t2
+  && decide ((elemText algidName e.t0).map unescape = some aesctrText)
+
+theorem headIsTag_spec {l : List Tok} (h : headIsTag l = true) : ∃ m rest, l = .tag m :: rest := by
+  cases l with
+  | nil => simp [headIsTag] at h
+  | cons t ts =>
+    cases t with
+    | tag m => exact ⟨m, ts, rfl⟩
+    | text _ => simp [headIsTag] at h
+
+theorem mem_optText {h : Text} {t : Tok} (ht : t ∈ optText h) (n : Text) : t ≠ .tag n := by
+  unfold optText at ht
+  split at ht
+  · simp at ht
+  · simp at ht; subst ht; simp
+
+theorem parse (ver : Text) (h : e.check ver = true) (kid cs : Bytes) (la raw : Text) (hla : TextHole la)
+    (hraw : fl raw = e.L0 ++ (b64 kid ++ e.X1) ++ (b64 cs ++ e.X2) ++ (la ++ e.L2) ++ e.L3) :
+    parseWrmHeader (cleanup raw) = some ⟨some ver, [⟨kid, some cs, some aesctrText⟩], some (unescape la)⟩ := by
+  simp only [check, Bool.and_eq_true, decide_eq_true_eq, List.all_eq_true] at h
+  obtain ⟨⟨⟨⟨⟨⟨⟨⟨⟨⟨⟨⟨⟨⟨⟨⟨⟨⟨⟨⟨⟨h0, hx1⟩, hp1⟩, hx2⟩, hp2⟩, hl2⟩, hfin⟩, hver⟩, hk0⟩, hk1⟩, hk2⟩, hk3⟩, hlast0⟩,
+    hno0⟩, hh1⟩, hlast1⟩, hno1⟩, hh2⟩, hlast2⟩, hno2⟩, hh3⟩, halg⟩ := h
+  -- tokens
+  have htk : pipe (none, .idle) (fl raw)
+      = (e.t0 ++ optText (b64 kid) ++ e.tx1 ++ optText (b64 cs) ++ e.tx2 ++ optText la ++ e.t2, (some [], .idle)) := by
+    rw [hraw]
+    have hre : e.L0 ++ (b64 kid ++ e.X1) ++ (b64 cs ++ e.X2) ++ (la ++ e.L2) ++ e.L3
+        = e.L0 ++ ((b64 kid ++ 60 :: e.X1.tail) ++ ((b64 cs ++ 60 :: e.X2.tail) ++ ((la ++ 60 :: e.L2.tail) ++ e.L3))) := by
+      rw [← hx1, ← hx2, ← hl2]; simp [List.append_assoc]
+    rw [hre, pipe_append, h0]
+    simp only
+    rw [pipe_append, pipe_text_hole _ _ (textHole_b64 kid), hp1]
+    simp only
+    rw [pipe_append, pipe_text_hole _ _ (textHole_b64 cs), hp2]
+    simp only
+    rw [pipe_append, pipe_text_hole _ _ hla]
+    simp only
+    have : pipe (pipe (none, .inTag []) e.L2.tail).2 e.L3 = ((pipe e.s2 e.L3).1, (some [], .idle)) := by
+      rw [← hfin]; rfl
+    rw [this]
+    simp [t2, List.append_assoc]
+  have htokens := tokenize_cleanup raw _ htk
+  obtain ⟨m1, r1, hm1⟩ := headIsTag_spec hh1
+  obtain ⟨m2, r2, hm2⟩ := headIsTag_spec hh2
+  obtain ⟨m3, r3, hm3⟩ := headIsTag_spec hh3
+  unfold parseWrmHeader
+  simp only [htokens]
+  have hv : (e.t0 ++ optText (b64 kid) ++ e.tx1 ++ optText (b64 cs) ++ e.tx2 ++ optText la ++ e.t2).findSome? versionOf
+      = some ver := by
+    simp only [List.append_assoc, List.findSome?_append, hver, Option.some_or]
+  have hkids : (e.t0 ++ optText (b64 kid) ++ e.tx1 ++ optText (b64 cs) ++ e.tx2 ++ optText la ++ e.t2).filterMap kidOfTag
+      = [] := by
+    simp only [List.filterMap_append, hk0, hk1, hk2, hk3, filterMap_optText, List.append_nil]
+  -- the three elements
+  have hkid : elemText kidName (e.t0 ++ optText (b64 kid) ++ e.tx1 ++ optText (b64 cs) ++ e.tx2 ++ optText la ++ e.t2)
+      = some (b64 kid) := by
+    have hre : e.t0 ++ optText (b64 kid) ++ e.tx1 ++ optText (b64 cs) ++ e.tx2 ++ optText la ++ e.t2
+        = e.t0.dropLast ++ .tag kidName :: (optText (b64 kid) ++ .tag m1 :: (r1 ++ optText (b64 cs) ++ e.tx2 ++ optText la ++ e.t2)) := by
+      conv => lhs; rw [hlast0, hm1]
+      simp [List.append_assoc]
+    rw [hre]
+    exact elemText_found _ _ _ _ _ (fun t ht => by simpa using hno0 t ht)
+  have hcs : elemText checksumName (e.t0 ++ optText (b64 kid) ++ e.tx1 ++ optText (b64 cs) ++ e.tx2 ++ optText la ++ e.t2)
+      = some (b64 cs) := by
+    have hre : e.t0 ++ optText (b64 kid) ++ e.tx1 ++ optText (b64 cs) ++ e.tx2 ++ optText la ++ e.t2
+        = (e.t0 ++ optText (b64 kid) ++ e.tx1.dropLast) ++ .tag checksumName :: (optText (b64 cs) ++ .tag m2 :: (r2 ++ optText la ++ e.t2)) := by
+      conv => lhs; rw [hlast1, hm2]
+      simp [List.append_assoc]
+    rw [hre]
+    apply elemText_found
+    intro t ht
+    rcases List.mem_append.mp ht with ht | ht
+    · rcases List.mem_append.mp ht with ht | ht
+      · simpa using hno1 t (List.mem_append_left _ ht)
+      · exact mem_optText ht _
+    · simpa using hno1 t (List.mem_append_right _ ht)
+  have hlau : elemText laUrlName (e.t0 ++ optText (b64 kid) ++ e.tx1 ++ optText (b64 cs) ++ e.tx2 ++ optText la ++ e.t2)
+      = some la := by
+    have hre : e.t0 ++ optText (b64 kid) ++ e.tx1 ++ optText (b64 cs) ++ e.tx2 ++ optText la ++ e.t2
+        = (e.t0 ++ optText (b64 kid) ++ e.tx1 ++ optText (b64 cs) ++ e.tx2.dropLast) ++ .tag laUrlName :: (optText la ++ .tag m3 :: r3) := by
+      conv => lhs; rw [hlast2, hm3]
+      simp [List.append_assoc]
+    rw [hre]
+    apply elemText_found
+    intro t ht
+    rcases List.mem_append.mp ht with ht | ht
+    · rcases List.mem_append.mp ht with ht | ht
+      · rcases List.mem_append.mp ht with ht | ht
+        · rcases List.mem_append.mp ht with ht | ht
+          · simpa using hno2 t (List.mem_append_left _ (List.mem_append_left _ ht))
+          · exact mem_optText ht _
+        · simpa using hno2 t (List.mem_append_left _ (List.mem_append_right _ ht))
+      · exact mem_optText ht _
+    · simpa using hno2 t (List.mem_append_right _ ht)
+  have halg' : (elemText algidName (e.t0 ++ optText (b64 kid) ++ e.tx1 ++ optText (b64 cs) ++ e.tx2 ++ optText la ++ e.t2)).map unescape
+      = some aesctrText := by
+    cases hv0 : elemText algidName e.t0 with
+    | none => simp [hv0] at halg
+    | some v =>
+      have hl : e.t0.getLast? ≠ some (.tag algidName) := by
+        rw [hlast0]; simp [kidName, algidName]
+      have := elemText_prefix algidName e.t0 (optText (b64 kid) ++ e.tx1 ++ optText (b64 cs) ++ e.tx2 ++ optText la ++ e.t2) v hv0 hl
+      simp only [List.append_assoc] at this ⊢
+      rw [this]; rw [hv0] at halg; exact halg
+  rw [hv, hkids]
+  simp only [List.isEmpty_nil, if_true, kidOfElements, hkid, hcs, hlau, halg', b64dec_b64, Option.map_some]
+end Elems
+
 end DashLive.WrmHeader
